@@ -643,7 +643,10 @@ def _get_nrows_ncols_step_sizes(xmap: CrystalMap) -> Tuple[int, int, float, floa
     """
     nrows = ncols = 1
     dy, dx = xmap.dy, xmap.dx
-    if xmap.ndim == 1:
+    if xmap.ndim == 1 and xmap.x is None:  # Single column
+        nrows = xmap.shape[0]
+        dx = 1
+    elif xmap.ndim == 1:  # Single row
         ncols = xmap.shape[0]
         dy = 1
     else:  # xmap.ndim == 2:
